@@ -44,9 +44,63 @@ func c14Fields(nPlaceholders, cookieLen int) {
 	v.Reach("C14.ntsfields")
 }
 
-func VerifC14NTSFields0() { c14Fields(0, 8) }
-func VerifC14NTSFields2() { c14Fields(2, 8) }
-func VerifC14NTSFields7() { c14Fields(7, 16) }
+// a cookie whose length is not a multiple of four is padded: the fields still decode as the kinds encoded,
+// every field stays 4-byte aligned, and the cookie comes back with (only) zero padding appended
+func c14FieldsPadded(nPlaceholders, cookieLen int) {
+	key := v.Bytes("key", 32)
+	uid := v.Bytes("uid", 32)
+	cookie := v.Bytes("cookie", cookieLen)
+	padded := (cookieLen + 3) &^ 3
+	var pkt Packet
+	pkt.UniqueID.ID = uid
+	pkt.Cookies = append(pkt.Cookies, Cookie{Cookie: cookie})
+	ph := make([]byte, cookieLen)
+	for i := 0; i < nPlaceholders; i++ {
+		pkt.CookiePlaceholders = append(pkt.CookiePlaceholders, CookiePlaceholder{Cookie: ph})
+	}
+	pkt.Auth.Key = key
+	buf := make([]byte, 48)
+	EncodePacket(&buf, &pkt)
+	v.Assert(len(buf)%4 == 0, "C14.nts.padded.packet-4-byte-aligned")
+	v.Assert(len(buf) == 48+36+(1+nPlaceholders)*(4+padded)+40, "C14.nts.padded.encoded-length")
+	// every extension field starts at a multiple of four and announces a multiple of four
+	pos, nfields := 48, 0
+	for i := 0; i < 3+nPlaceholders; i++ {
+		if pos+4 <= len(buf) {
+			l := int(buf[pos+2])<<8 | int(buf[pos+3])
+			v.Assert(l%4 == 0 && l >= 4, "C14.nts.padded.every-field-length-multiple-of-four")
+			pos += l
+			nfields++
+		}
+	}
+	v.Assert(pos == len(buf) && nfields == 3+nPlaceholders, "C14.nts.padded.fields-tile-the-packet")
+	var got Packet
+	err := DecodePacket(&got, buf)
+	v.Assert(err == nil, "C14.nts.padded.own-packet-decodes")
+	if err == nil {
+		v.Assert(c10eq(got.UniqueID.ID, uid), "C14.nts.padded.unique-id-roundtrip")
+		v.Assert(len(got.Cookies) == 1 && len(got.CookiePlaceholders) == nPlaceholders, "C14.nts.padded.fields-decode-as-the-kinds-encoded")
+		if len(got.Cookies) == 1 {
+			c := got.Cookies[0].Cookie
+			v.Assert(len(c) == padded, "C14.nts.padded.cookie-length-padded-to-a-multiple-of-four")
+			if len(c) == padded {
+				v.Assert(c10eq(c[:cookieLen], cookie), "C14.nts.padded.cookie-bytes-roundtrip")
+				for i := cookieLen; i < padded; i++ {
+					v.Assert(c[i] == 0, "C14.nts.padded.padding-is-zero")
+				}
+			}
+		}
+		v.Assert(len(got.Auth.Nonce) == 16 && len(got.Auth.CipherText) == 16 && got.Auth.pos == len(buf)-40, "C14.nts.padded.authenticator-decodes-as-authenticator")
+		v.Assert(ProcessRequest(buf, key, &got) == nil, "C14.nts.padded.own-packet-authenticates")
+	}
+	v.Reach("C14.ntsfieldspadded")
+}
+
+func VerifC14NTSFieldsPadded5() { c14FieldsPadded(1, 5) }
+func VerifC14NTSFieldsPadded7() { c14FieldsPadded(2, 7) }
+func VerifC14NTSFields0()       { c14Fields(0, 8) }
+func VerifC14NTSFields2()       { c14Fields(2, 8) }
+func VerifC14NTSFields7()       { c14Fields(7, 16) }
 
 // C10 completeness: what the project's encoder produces is accepted under the same key
 // C10 soundness (layout-preserving adversary): a packet with the same extension layout but arbitrary
